@@ -551,7 +551,17 @@ func runHealth(cfg *hx.RunCfg) error {
 	}
 	results := make([]hresult, len(cases))
 	var next, slowRuns, timingFlakes atomic.Int64
-	const maxSlowRuns = 16
+	// re-runs with the slow profile are capped: a real defect makes far more cases look wrong than
+	// the cap (and is then reported from the fast observations), scheduling hiccups stay below it
+	maxSlowRuns := int64(16)
+	if int64(len(cases)/100) > maxSlowRuns {
+		maxSlowRuns = int64(len(cases) / 100)
+	}
+	fast := hFast
+	if cfg.Tier == "thorough" {
+		// 128 monitors at once: wider margins
+		fast = htiming{60 * time.Millisecond, 100 * time.Millisecond, 20 * time.Millisecond}
+	}
 	var wg sync.WaitGroup
 	for w := 0; w < workers; w++ {
 		wg.Add(1)
@@ -563,10 +573,10 @@ func runHealth(cfg *hx.RunCfg) error {
 				if i >= len(cases) {
 					return
 				}
-				r := runHealthCase(cases[i], ip, hFast)
+				r := runHealthCase(cases[i], ip, fast)
 				if r.invalid != "" {
 					// once more: a port may have been taken between two listens
-					r = runHealthCase(cases[i], ip, hFast)
+					r = runHealthCase(cases[i], ip, fast)
 				}
 				if r.invalid == "" && !sameEvents(r.events, expectedCallbacks(cases[i])) && slowRuns.Add(1) <= maxSlowRuns {
 					if r2 := runHealthCase(cases[i], ip, hSlow); r2.invalid == "" {
